@@ -40,7 +40,8 @@ inline std::string lwe_bytes(const LweSample *c, int n) { std::string s((const c
 
 inline std::vector<Scenario> scenarios(int T, int tiny_n, const std::vector<int> &churn = {}) {
     std::vector<Scenario> v;
-    v.push_back({"H1-fft-products", T, [=] { prep_polys(T, N); }, [](int t) { TorusPolynomial *r = new_TorusPolynomial(N); torusPolynomialMultFFT(r, SH().ia[t], SH().tb[t]); std::string o = poly_bytes(r); delete_TorusPolynomial(r); return o; }});
+    // H1 also offers coarse scheduling points inside the libm-driven table construction (first FFT use of a thread / of the process)
+    v.push_back({"H1-fft-products", T, [=] { prep_polys(T, N); }, [](int t) { TorusPolynomial *r = new_TorusPolynomial(N); torusPolynomialMultFFT(r, SH().ia[t], SH().tb[t]); std::string o = poly_bytes(r); delete_TorusPolynomial(r); return o; }, [] { sched::C().libm_points = true; }, [] { sched::C().libm_points = false; }});
     v.push_back({"H2-extern-products-shared-key", T, [=] { prep_key(tiny_n, T); }, [](int t) { Shared &s = SH(); TLweSample *a = new_TLweSample(s.S->tp); tLweCopy(a, s.acc[t], s.S->tp); tGswFFTExternMulToTLwe(a, &s.S->bkFFT->bkFFT[0], s.S->gp); std::string o = poly_bytes(&a->a[0]) + poly_bytes(&a->a[1]); delete_TLweSample(a); return o; }});
     v.push_back({"H3-gates-shared-cloud-key", T, [=] { prep_key(tiny_n, T); }, [](int t) { Shared &s = SH(); LweSample *r = new_LweSample(s.S->lp); if (t & 1) bootsXOR(r, s.xin[2 * t], s.xin[2 * t + 1], s.ck); else bootsNAND(r, s.xin[2 * t], s.xin[2 * t + 1], s.ck); std::string o = lwe_bytes(r, s.S->n); delete_LweSample(r); return o; }});
     v.push_back({"H4-gate-vs-keygen", 2, [=] { prep_key(tiny_n, 2); }, [](int t) { Shared &s = SH();
